@@ -55,6 +55,15 @@ static string long_lived_decode(const Descriptor *d, const vector<uint8_t> &byte
   return a == b ? string("same") : a;
 }
 
+// push freed blocks through ASan's quarantine (256 MB FIFO) so that the allocator hands them out again
+static void flush_quarantine() {
+  for (int i = 0; i < 400; i++) {
+    volatile char *p = static_cast<volatile char*>(malloc(1 << 20));
+    if (p) { p[0] = 1; p[(1 << 20) - 1] = 1; }
+    free(const_cast<char*>(p));
+  }
+}
+
 struct DescRef { unsigned man, pid, kind; const Descriptor *d; };
 static void all_descs(vector<DescRef> *out) {
   vector<std::pair<unsigned, const PidStore*> > stores;
@@ -90,8 +99,7 @@ static string reload_op(unsigned k) {
     delete g_des->InflateMessage(before[i].d, one, 0);
   delete g_store;
   g_store = NULL;
-  // push the freed blocks through ASan's quarantine so that they are handed out again
-  for (int i = 0; i < 400; i++) free(malloc(1 << 20));
+  flush_quarantine();
   // disturb the free lists: synthetic descriptors of varying shapes, some kept, some freed
   static const char *shapes[] = {"u8", "b,u16,s0:8,u8", "g0:-1[u16l,b]", "uid,g2:2[u8,g3:3[b]],u8",
                                  "s2:6,b", "g1:3[u8,u16]", "-", "ip4,ip6,mac", "u64,u16,s255:255"};
@@ -103,7 +111,7 @@ static string reload_op(unsigned k) {
   if (k % 2) {
     // an unvalidated load of the same files, deleted again
     delete RootPidStore::LoadFromDirectory(PID_DATA_DIR, false);
-    for (int i = 0; i < 400; i++) free(malloc(1 << 20));
+    flush_quarantine();
   }
   g_store = RootPidStore::LoadFromDirectory(PID_DATA_DIR, true);
   if (!g_store) return "load=failed;r=store-load-failed";
